@@ -39,21 +39,23 @@ def run(ctx):
 
 
 class AStr(object):
-    """abstract string: set of possible lengths; tzfree: if len > tzfree the last char is not '0'"""
+    """abstract string: set of possible lengths; tzfree: if len > tzfree the last char is not '0'; prefix: the text is a
+    prefix of the six microsecond digits, possibly padded with zeros ON THE RIGHT (= the truncated fraction, value kept)"""
 
-    def __init__(self, lens, tzfree):
+    def __init__(self, lens, tzfree, prefix=True):
         self.lens = frozenset(lens)
         # canonical form: a guarantee that only concerns lengths that cannot occur is vacuous
         self.tzfree = min(tzfree, max(self.lens))
+        self.prefix = prefix
 
     def __repr__(self):
-        return "len%s nozero>%s" % (sorted(self.lens), self.tzfree)
+        return "len%s nozero>%s%s" % (sorted(self.lens), self.tzfree, "" if self.prefix else " NOT-A-PREFIX-OF-THE-DIGITS")
 
     def __eq__(self, o):
-        return isinstance(o, AStr) and (self.lens, self.tzfree) == (o.lens, o.tzfree)
+        return isinstance(o, AStr) and (self.lens, self.tzfree, self.prefix) == (o.lens, o.tzfree, o.prefix)
 
     def join(self, o):
-        return AStr(self.lens | o.lens, max(self.tzfree, o.tzfree))
+        return AStr(self.lens | o.lens, max(self.tzfree, o.tzfree), self.prefix and o.prefix)
 
 
 EMPTY = AStr({0}, 0)
@@ -63,7 +65,7 @@ def abstract_frac(e, us_names):
     """abstract value of a fraction expression built from the integer microsecond"""
     if isinstance(e, ast.Constant) and isinstance(e.value, str):
         s = e.value
-        return AStr({len(s)}, len(s) if s.endswith("0") else 0)
+        return AStr({len(s)}, len(s) if s.endswith("0") else 0, s == "")
     if isinstance(e, ast.Call) and isinstance(e.func, ast.Attribute):
         m = e.func.attr
         base = e.func.value
@@ -74,17 +76,23 @@ def abstract_frac(e, us_names):
             raise AnalysisError("format_datetime: unsupported format %r" % fmt)
         b = abstract_frac(base, us_names)
         if m == "rstrip" and len(e.args) == 1 and isinstance(e.args[0], ast.Constant) and e.args[0].value == "0":
-            return AStr(set(range(0, max(b.lens) + 1)), 0)
+            return AStr(set(range(0, max(b.lens) + 1)), 0, b.prefix)
         if m == "ljust" and len(e.args) == 2 and isinstance(e.args[0], ast.Constant) and isinstance(e.args[1], ast.Constant) \
                 and e.args[1].value == "0":
             w = e.args[0].value
-            return AStr({max(x, w) for x in b.lens}, max(b.tzfree, w))
+            return AStr({max(x, w) for x in b.lens}, max(b.tzfree, w), b.prefix)
+        if (m == "zfill" and len(e.args) == 1 and isinstance(e.args[0], ast.Constant)) or (
+                m == "rjust" and len(e.args) == 2 and isinstance(e.args[0], ast.Constant) and isinstance(e.args[1], ast.Constant)
+                and e.args[1].value == "0"):
+            # zeros are added on the LEFT: '5' -> '005' is another instant, unless no padding can happen
+            w = e.args[0].value
+            return AStr({max(x, w) for x in b.lens}, b.tzfree, b.prefix and all(x >= w for x in b.lens))
         raise AnalysisError("format_datetime: unsupported string method %s" % m)
     if isinstance(e, ast.Subscript) and isinstance(e.slice, ast.Slice) and e.slice.lower is None and e.slice.step is None \
             and isinstance(e.slice.upper, ast.Constant):
         b = abstract_frac(e.value, us_names)
         w = e.slice.upper.value
-        return AStr({min(x, w) for x in b.lens}, max(b.tzfree, w) if any(x > 0 for x in b.lens) else 0)
+        return AStr({min(x, w) for x in b.lens}, max(b.tzfree, w) if any(x > 0 for x in b.lens) else 0, b.prefix)
     raise AnalysisError("format_datetime: unsupported fraction expression %s" % norm(e))
 
 
@@ -194,10 +202,10 @@ def rule_branch_table(ctx):
     run.floor(R, 7)
 
 
-def rule_truncate(ctx):
+def rule_truncate(ctx, rule_id="C15.truncate"):
     run = ctx.run
     prog = ctx.prog
-    R = "C15.truncate"
+    R = rule_id
     for fid in (U + "::format_datetime", U + "::parse_into_datetime"):
         fi = prog.func(fid)
         bad = [c for c in body_walk(fi.node) if isinstance(c, ast.Call) and call_simple_name(c) in ("round", "ceil", "rint")]
@@ -325,10 +333,10 @@ def rule_api_domain(ctx):
         i.rule = R
 
 
-def rule_property_forward(ctx):
+def rule_property_forward(ctx, rule_id="C15.property-forward"):
     run = ctx.run
     prog = ctx.prog
-    R = "C15.property-forward"
+    R = rule_id
     tp = prog.cls("stix2.properties::TimestampProperty")
     cl = tp.methods.get("clean")
     init = tp.methods.get("__init__")
@@ -344,6 +352,17 @@ def rule_property_forward(ctx):
         got = {k: norm(v) for k, v in b.params.items()} if b else {}
         ok = got.get("value") == cl.params[1] and got.get("precision") == "self.precision" and \
             got.get("precision_constraint") == "self.precision_constraint"
+    if ok:
+        # ... on EVERY normal path: a shortcut that hands back a value "already of this precision" skips the constraint
+        # (a microsecond value cleaned under `min` reaches a millisecond-`exact` property untruncated)
+        from ..cfg import cfg_of, node_calls
+        g = cfg_of(cl)
+        okp, path = g.must_pass(lambda n: node_calls(n, lambda c: c is calls[0]))
+        run.check(okp, R, key(cl.module.relpath, cl.qualname, "every-path-through-parser"),
+                  "a path of TimestampProperty.clean returns without parse_into_datetime(value, precision, constraint): the value "
+                  "keeps digits the property's precision rule removes, and is serialised with them", file=cl.module.relpath,
+                  line=cl.node.lineno, function=cl.qualname, expected="parse_into_datetime(...) on every normal path",
+                  found="bypass", path=g.describe_path(path))
     run.check(ok, R, key(cl.module.relpath, cl.qualname, "forwards-precision"), "the property's precision settings do not reach the parser",
               file=cl.module.relpath, line=cl.node.lineno, function=cl.qualname,
               expected="parse_into_datetime(value, self.precision, self.precision_constraint)", found=[short(c) for c in calls])
